@@ -9,7 +9,7 @@ namespace sim {
 std::atomic<long> Tracked::copies{0}, Tracked::moves{0}, Tracked::live{0};
 
 static ShapeFns g_fns[1024];
-ShapeReg::ShapeReg(int id, const char* file, MakeFn a, MakeFn m) { g_fns[id].file = file; g_fns[id].make[0] = a; g_fns[id].make[1] = m; }
+ShapeReg::ShapeReg(int id, const char* file, MakeFn a, MakeFn m, ScopedFn sa, ScopedFn sm) { g_fns[id].file = file; g_fns[id].make[0] = a; g_fns[id].make[1] = m; g_fns[id].scoped[0] = sa; g_fns[id].scoped[1] = sm; }
 const ShapeFns& shape_fns(int id) { return g_fns[id]; }
 int val(const std::string& s) { return std::atoi(s.c_str()); }
 
@@ -106,10 +106,34 @@ void ExecImpl::note(const std::string& s) {
 void ExecImpl::run(const Plan& p) {
   if (p.tasks.empty()) return;
   const auto& ops = p.tasks[0];
-  for (size_t i = 0; i < ops.size() && !stop; ++i) {
+  size_t i = 0;
+  while (i < ops.size() && !stop) i = run_range(ops, i, 0);
+}
+
+// Executes ops[i..] until the end, or until the end_scope that closes this nesting level (consumed). A scoped
+// expectation is a local variable of a real C++ frame: the operations up to its end_scope run inside that frame.
+size_t ExecImpl::run_range(const std::vector<Op>& ops, size_t i, int level) {
+  while (i < ops.size() && !stop) {
+    const Op& op = ops[i];
     cur_op_index = static_cast<int>(i);
-    step(ops[i], false);
+    if (op.kind == OP_END_SCOPE) { if (level > 0) return i + 1; ++i; continue; }
+    if (!shadow && op.kind == OP_EXPECT && (op.a[8] & 2) && level < 8) {
+      int shape = static_cast<int>(static_cast<unsigned>(op.a[0]) % static_cast<unsigned>(shape_count));
+      if (shape_table[shape].sline) {
+        size_t next = i + 1;
+        std::function<void()> body = [&]() { next = run_range(ops, i + 1, level + 1); };
+        ++depth; ++st.ops[op.kind]; g_last_op_kind = op.kind; ctx_moved_mock = false; ctx_rejected_call = false;
+        { std::ostringstream os; os << "op scoped_expect"; for (int k = 0; k < OP_ARGS; ++k) os << ' ' << op.a[k]; note(os.str()); fp += 'E'; }
+        --depth;   // the body's operations are top-level operations themselves
+        op_expect(op, &body);
+        i = next;
+        continue;
+      }
+    }
+    step(op, false);
+    ++i;
   }
+  return i;
 }
 
 void ExecImpl::step(const Op& op, bool nested) {
@@ -150,9 +174,10 @@ void ExecImpl::step(const Op& op, bool nested) {
     case OP_SET_REPORTER: if (!nested) op_set_reporter(op); break;
     case OP_MUTATE: op_mutate(op); break;
     case OP_WIDE: op_wide(op); break;
+    case OP_END_SCOPE: op_end_scope(op); break;
     default: break;
   }
-  if (!stop && !shadow && depth == 1) observe_flags();
+  if (!stop && !shadow && depth == 1) { observe_flags(); state_hashes.push_back(M.hash()); }
   --depth;
 }
 
@@ -200,6 +225,7 @@ const Model& Exec::model() const { return p_->M; }
 bool Exec::failed() const { return p_->has_viol; }
 const Violation& Exec::violation() const { return p_->viol; }
 Stats& Exec::stats() { return p_->st; }
+const std::vector<uint64_t>& Exec::state_hashes() const { return p_->state_hashes; }
 uint64_t Exec::log_hash() const { return p_->hash; }
 std::string Exec::fingerprint() const { return p_->fp; }
 int Exec::nontrivial_for(const char* prop) const {
